@@ -81,7 +81,8 @@ fn materialise(c: &Case) -> (usize, Vec<u8>, Vec<Sample>) {
             let h = crate::engine::splitmix64((*seed as u64) << 16 | j as u64);
             if h & 3 == 0 {
                 let p = gen::idx(*ps, s.len());
-                s[p] = model::BASES[*b as usize & 3];
+                // every third site is multi-allelic: the carriers do not all carry the same base
+                s[p] = if seed % 3 == 0 { model::BASES[(*b as usize + (h >> 2) as usize % 3) & 3] } else { model::BASES[*b as usize & 3] };
             }
         }
         if (c.rc_mask >> (j % 16)) & 1 == 1 {
